@@ -41,11 +41,18 @@ INV_WHAT = {
     "CleanCloseComplete": "after a clean Close the database does not hold the whole binlog",
 }
 INFRA_EVENTS = ("Hung", "DiskErr")
+# actions that belong to another role / durability mode / the S->I instance
+NOT_IN_EVERY_INSTANCE = ("DoWrite", "DoWriteLazy", "DoNowBegin", "DoNowFinish", "DoWriteFail", "DoWriteReplica", "ExtAppend",
+                         "TxCommit", "BlWrite", "BlSync", "BlCommit", "ReplayDone", "Desync", "ReadCommitLow", "Close",
+                         "DoWriteCore", "DoWriteLazyCore", "DoNowBeginCore", "DoNowFinishCore", "DoWriteFailCore",
+                         "DoWriteReplicaCore", "ExtAppendCore", "TxCommitCore", "BlWriteCore", "BlSyncCore", "BlCommitCore",
+                         "ReplayDoneCore", "DesyncCore", "ReadCommitLowCore", "CloseCore", "DoWriteBase", "DoWriteLazyBase",
+                         "DoNowBeginBase", "DoWriteFailBase", "TxCommitEffect", "ViewA", "ViewCore", "DoRead", "DoReadCore")
 
 
 def tlc_many(ctx, jobs):
     """jobs: list of (kwargs for ctx.tlc); run concurrently, results in order."""
-    with concurrent.futures.ThreadPoolExecutor(max_workers=max(1, len(jobs))) as ex:
+    with concurrent.futures.ThreadPoolExecutor(max_workers=max(1, min(3, len(jobs)))) as ex:
         futs = [ex.submit(ctx.tlc, *a, **kw) for a, kw in jobs]
         return [f.result() for f in futs]
 
@@ -182,31 +189,56 @@ def _run(ctx, scratch):
     W = max(2, NCPU // 3)
     # 1. model checking of the design
     consts = {"StartSize": 24, "SvcSizes": [20], "Size(w)": "12+4w"}
+    live = (("SqliteEngineMC", "SqliteEngine_live.cfg"), dict(workers=W, timeout=3000, heap="4g", constants=consts,
+            name="MC liveness: a waiting Do is acknowledged unless the process is killed (weakly fair binlog writer)"))
+    def mc(cfg, name, cov=False):
+        return (("SqliteEngineMC", cfg), dict(workers=W, timeout=6000 if th else 1500, heap="6g", coverage=cov,
+                                            name=name, constants=consts))
     if th:
-        jobs = [(("SqliteEngineMC", "SqliteEngine_mc_big.cfg"), dict(workers=W, timeout=6000, coverage=True, name="MC WaitCommit master (4 writes, 1 failing, 2 readers, 2 crashes)", constants=consts)),
-                (("SqliteEngineMC", "SqliteEngine_nowait_big.cfg"), dict(workers=W, timeout=6000, coverage=True, name="MC NoWaitCommit master", constants=consts)),
-                (("SqliteEngineMC", "SqliteEngine_replica_big.cfg"), dict(workers=W, timeout=6000, coverage=True, name="MC replica", constants=consts))]
+        jobs = [mc("SqliteEngine_mc_big.cfg", "MC WaitCommit master (4 writes, 1 failing, 2 readers, 1 crash)", True),
+                mc("SqliteEngine_mc_mid.cfg", "MC WaitCommit master (3 writes, 1 failing, 2 readers, 2 crashes, crc32 records)", True),
+                mc("SqliteEngine_nowait_big.cfg", "MC NoWaitCommit master (4 writes, 1 failing, 2 readers, 1 crash)", True),
+                mc("SqliteEngine_replica_big.cfg", "MC replica (4 writes, 1 reader, 1 crash, crc32 records)", True),
+                live]
     else:
-        jobs = [(("SqliteEngineMC", "SqliteEngine_mc.cfg"), dict(workers=W, timeout=900, name="MC WaitCommit master (3 writes, 1 failing, 1 reader, 1 crash)", constants=consts)),
-                (("SqliteEngineMC", "SqliteEngine_nowait.cfg"), dict(workers=W, timeout=900, name="MC NoWaitCommit master", constants=consts)),
-                (("SqliteEngineMC", "SqliteEngine_replica.cfg"), dict(workers=W, timeout=900, name="MC replica", constants=consts))]
+        jobs = [mc("SqliteEngine_mc.cfg", "MC WaitCommit master (3 writes, 1 failing, 1 reader, 1 crash, crc32 records)"),
+                mc("SqliteEngine_nowait.cfg", "MC NoWaitCommit master (3 writes, 1 failing, 1 reader, 1 crash)"),
+                mc("SqliteEngine_replica.cfg", "MC replica (3 writes, 1 crash, crc32 records)"),
+                live]
     for res in tlc_many(ctx, jobs):
         ctx.require_model_ok(res, "SqliteEngine invariants")
+        dead = [a for a in res.zero_cov if a not in NOT_IN_EVERY_INSTANCE]
+        if dead:
+            ctx.log("WARNING: actions never taken: %s" % dead)
     ctx.ev.set("exhaustive", True)
 
     # 2. S->I: the reading path
-    beh = ctx.tlc("SqliteEngineMC", "SqliteEngine_beh.cfg", timeout=1800, name="behaviour export (reading path, 9 steps)")
+    beh = ctx.tlc("SqliteEngineMC", "SqliteEngine_beh_big.cfg" if th else "SqliteEngine_beh.cfg", timeout=3000, heap="6g",
+                  name="behaviour export (reading path, %d steps)" % (9 if th else 8))
     ctx.require_model_ok(beh, "behaviour export")
     bs = beh.behaviours
     if not bs:
         raise Infra("no behaviours exported")
     rnd.shuffle(bs)
-    interesting = [b for b in bs if any(s["a"] in ("Desync", "Crash") for s in b)]
-    plain = [b for b in bs if not any(s["a"] in ("Desync", "Crash") for s in b)]
-    n1 = 4000 if th else 500
-    take = interesting[: n1 // 2]
-    take += plain[: n1 - len(take)]
-    sim = ctx.tlc("SqliteEngineMC", "SqliteEngine_sim.cfg", simulate=(400 if th else 40, 41), timeout=1800,
+    def kind(b):
+        if any(s["a"] == "Desync" for s in b):
+            return "desync"          # apply() must skip the bytes the database already holds
+        if any(s["a"] == "Commit" and s["post"]["cinfo"] != s["off"] or
+               s["a"] == "Commit" and s["off"] < s["post"]["dbo"] and s["post"]["rst"] == "wtc" for s in b):
+            return "lowcommit"       # Commit below the stored / applied offset
+        if any(s["a"] == "Crash" for s in b):
+            return "crash"
+        return "plain"
+    groups = {}
+    for b in bs:
+        groups.setdefault(kind(b), []).append(b)
+    n1 = 4000 if th else 600
+    take = []
+    for k in ("desync", "lowcommit", "crash", "plain"):
+        take += groups.get(k, [])[: n1 // 4]
+    if not groups.get("desync") or not groups.get("lowcommit"):
+        raise Infra("behaviour export lacks Desync / low Commit behaviours: %s" % {k: len(v) for k, v in groups.items()})
+    sim = ctx.tlc("SqliteEngineMC", "SqliteEngine_sim.cfg", simulate=(400 if th else 40, 41), timeout=1800, heap="4g",
                   name="simulated long behaviours (5 writes, 3 crashes)")
     ctx.require_model_ok(sim, "simulation export")
     per = {}
@@ -259,3 +291,23 @@ def _run(ctx, scratch):
                   "a View result ahead of the last Engine.Commit is reported even if the bytes had reached the file")
     ctx.ev.assume("fsbinlog's own format, rotation and torn writes are C18's subject: no rotation here (1 GiB chunks), a "
                   "binlog whose last write was cut inside a record is counted (torn_tails) and not judged")
+
+
+def replay(ctx, path):
+    """tools/check C17 --replay <witness>: re-judge a stored witness against the current tree/spec."""
+    if path.endswith(".ndjson"):
+        first = json.loads(open(path).readline())
+        mode = first.get("mode", "wait")
+        tv = ctx.tlc("SqliteEngineTrace", "SqliteEngineTrace_%s.cfg" % mode, workers=1, files={"trace.ndjson": path},
+                     timeout=1200, heap="4g", name="witness re-validation", expect_violation=True)
+        print(tv.cex[-6000:] if tv.violated else "witness accepted by the specification")
+        if tv.violated:
+            sig = tv.violated if tv.violated.startswith("invariant:") else "trace-rejected"
+            ctx.violation(sig, "stored witness is still rejected (%s)" % tv.violated, path)
+        return
+    mm = json.load(open(path))
+    res, out, rc = ctx.go_test("internal/sqlite", "TestVerifC17S2I", inp=[mm["beh"]], timeout=600,
+                               env={"VERIF_C17_PAR": 1})
+    res = ctx.need_result(res, out, rc, "TestVerifC17S2I")
+    ctx.replay_s2i_mismatches(res, "s2i")
+    print(json.dumps(res.get("mismatches"), indent=1)[:6000])
